@@ -93,6 +93,7 @@ def seriesFn (name : String) (lv : List K) (pr : List K) (n : Nat) (x : List K) 
   | "sqrt" => pure [sqrtS (l 0) x]
   | "powreal" => pure [powRealS (pr.getD 0 0) (l 0) x]
   | "pownat" => pure [powNatS n x]
+  | "powbin" => pure [powBinS n x]
   | "powmask" => pure [powMaskS n (n + lv.length) x]      -- the number of leaves passed = (largest exponent of the array) - n
   | "sincos" => let r := sincosS (l 0) (l 1) x; pure [r.1, r.2]
   | "sinhcosh" => let r := sinhcoshS (l 0) (l 1) x; pure [r.1, r.2]
